@@ -72,7 +72,7 @@ package common
 // `local-` clauses are proved here but not re-assumed at call sites (callers reason on the class code; [mint] is the one
 // content fact a caller needs: kernel/self.go dereferences tx.Inputs[0].Mint of a mint-class transaction).
 //@ func (tx *SignedTransaction) TransactionType
-//@   property C28, C05
+//@   property C28, C05, C17
 //@   requires TxElemsOK(tx)
 //@   pure
 //@   ensures [range] result == 0 || result == 1 || result == 2 || result == 3 || result == 5 || result == 6 || result == 7 || result == 9 ||
@@ -93,7 +93,15 @@ package common
 //@       (tx.Outputs[0].Type == OutputTypeNodePledge ==> result == TransactionTypeNodePledge) &&
 //@       (tx.Outputs[0].Type == OutputTypeNodeAccept ==> result == TransactionTypeNodeAccept) &&
 //@       (tx.Outputs[0].Type == OutputTypeNodeRemove ==> result == TransactionTypeNodeRemove)
+//@   -- C17 (zz_contracts_c17_verif.go): the classification writeTotalInAsset relies on, by the first input / first output
+//@   ensures [c17-mint-first] len(tx.Inputs) >= 1 && tx.Inputs[0].Mint != nil ==> result == TransactionTypeMint
+//@   ensures [c17-deposit-first] len(tx.Inputs) >= 1 && tx.Inputs[0].Mint == nil && tx.Inputs[0].Deposit != nil ==> result == TransactionTypeDeposit
+//@   ensures [c17-genesis-first] len(tx.Inputs) >= 1 && tx.Inputs[0].Mint == nil && tx.Inputs[0].Deposit == nil && !isnil(tx.Inputs[0].Genesis) ==> result == TransactionTypeUnknown
+//@   ensures [c17-unknown] result == TransactionTypeUnknown ==> PlainInputs(&tx.Transaction) || (exists k int :: 0 <= k && k < len(tx.Inputs) && !isnil(tx.Inputs[k].Genesis))
+//@   ensures [c17-submit-first] PlainInputs(&tx.Transaction) && len(tx.Outputs) >= 1 && tx.Outputs[0].Type == OutputTypeWithdrawalSubmit ==> result == TransactionTypeWithdrawalSubmit
+//@   ensures [c17-submit-only] result == TransactionTypeWithdrawalSubmit ==> exists j int :: 0 <= j && j < len(tx.Outputs) && tx.Outputs[j].Type == OutputTypeWithdrawalSubmit
 //@   loop 0 invariant forall j int :: 0 <= j && j <= rangeindex ==> PlainInput(tx.Inputs[j])
+//@   loop 1 invariant [c17] forall j int :: 0 <= j && j <= rangeindex ==> tx.Outputs[j].Type != OutputTypeWithdrawalSubmit
 //@   loop 1 invariant PlainInputs(&tx.Transaction)
 //@   loop 1 invariant forall j int :: 0 <= j && j <= rangeindex ==> !NodeKind(tx.Outputs[j].Type)
 
